@@ -11,6 +11,7 @@ command line, option lists shared between constructions, IPv6 entries in the IPv
 two when anonymized.
 """
 import io
+import os
 import ipaddress
 
 from . import ipgen
@@ -530,6 +531,33 @@ def scenario_scope(res, pid, rng, tier):
             if got is not None:
                 _cmp(fails, "an address is mapped onto a member of a preserved block that starts at the base address of a shorter preserved prefix",
                      ctx, ls, got, spec_lines(salt, ls, nets=nets_, b4=b4))
+    # ... and through anonymize_files with an entry listed twice: candidates are the pre-images that an anonymizer *without* the networks names
+    import tempfile as _tfq
+    import shutil as _shq
+    from netconan.anonymize_files import anonymize_files as _afq
+    for nets_ in (["64.0.0.0/3", "100.64.0.0/10", "64.0.0.0/3"], [net, "44.0.0.0/8", net]):
+        ys = []
+        for n in _v4nets(nets_):
+            ys += [int(n.network_address) + k for k in (3, 77, n.num_addresses // 2 + 1)]
+        xs = []
+        for y in ys:
+            try:
+                xs.append(int(IpAnonymizer(salt, None, None, preserve_suffix=8).deanonymize(y)))
+            except Exception:  # noqa
+                pass
+        ls = ["ip host %s" % v4(a) for a in xs + ys if 0 <= a < 2 ** 32]
+        dq = _tfq.mkdtemp(prefix="ncverif_")
+        ctx = {"salt": salt, "preserve_addresses": nets_, "entry_point": "anonymize_files"}
+        try:
+            open(os.path.join(dq, "in.cfg"), "w").write("".join(x + "\n" for x in ls))
+            _afq(os.path.join(dq, "in.cfg"), os.path.join(dq, "out.cfg"), False, True, salt=salt, preserve_networks=list(nets_), preserve_suffix_v4=8, preserve_suffix_v6=8)
+            got = open(os.path.join(dq, "out.cfg")).read().split("\n")[:-1]
+            res.evaluations += len(ls)
+            _cmp(fails, "an address is mapped into a preserved network (file-level run, a network listed twice)", ctx, ls, got, spec_lines(salt, ls, nets=nets_))
+        except Exception as e:  # noqa
+            fails.append(dict(ctx, kind="anonymize_files raised", exc=repr(e)[:200]))
+        finally:
+            _shq.rmtree(dq, ignore_errors=True)
     res.nt(("scn", "same-base"))
 
     # ---- Q2. the map is written out between requests (library use): what comes afterwards is still the function of salt and options
